@@ -51,6 +51,8 @@ class AudioTrack(SampleElement):
             sample_width=self.bytes_per_sample, 
             num_interleaved_channels=2
         )
+        # the stream is shared by every export of this track: rewind it
+        self._data_stream.seek(0, SEEK_SET)
         data_streams = [
             DataStream(stream=self._data_stream, encoding=stream_encoding)
         ]
